@@ -11,9 +11,20 @@
 
 static_assert(std::is_same<std::vector<int>, igris::vector<int, std::allocator<int>>>::value, "compat/std/vector must alias igris::vector");
 
-static FlatOps<std::map<int, Box>, std::set<Box>, Box, Box> g_ops;
+// comparators as in C02.cpp: less (default), greater, by last digit, greater on the decimal text
+static FlatOps<std::map<int, Box>, std::set<Box>, Box, Box> g_ops0;
+static FlatOps<std::map<int, Box, std::greater<int>>, std::set<Box, std::greater<Box>>, Box, Box> g_ops1;
+static FlatOps<std::map<int, Box, ByLastDigit>, std::set<Box, ByLastDigit>, Box, Box> g_ops2;
+static FlatOps<std::map<int, Box, TextGreater>, std::set<Box, TextGreater>, Box, Box> g_ops3;
+static FlatBase *g_ops = &g_ops0;
 
 std::string c02_compat(const std::string &line)
 {
-    return g_ops.step(line);
+    if (line.compare(0, 12, "reset flat c") == 0)
+    {
+        std::string name = line.size() > 13 ? line.substr(13) : "";
+        g_ops = name == "greater" ? (FlatBase *)&g_ops1 : name == "lastdigit" ? (FlatBase *)&g_ops2 : name == "sgreater" ? (FlatBase *)&g_ops3 : (FlatBase *)&g_ops0;
+        return g_ops->step("reset");
+    }
+    return g_ops->step(line);
 }
